@@ -4,8 +4,11 @@ import itertools
 import numpy as np
 from hypothesis import strategies as st
 
-import pyModeS as pms
-from pyModeS import py_common
+from vlib import variants
+variants.fake_rtlsdr()   # before the reader module is imported (the demodulator's frame admission is one of the anchors)
+
+import pyModeS as pms  # noqa: E402
+from pyModeS import py_common  # noqa: E402
 from ref import crc24
 from ref.frames import tohex
 from vlib import gen
@@ -18,7 +21,7 @@ RULE = ("frames of 56/112 bits (uniform, all-0/all-1, sparse, dense, the suite's
         "linearity; direct error injection (all weight<=3 patterns, all bursts <=12 at every offset, sampled weight 4-5 "
         "and bursts 13-24) on valid frames; syndrome closure: no 1..5 single-bit syndromes of the implementation XOR to 0. "
         "non-trivial = frame not all-zero (and, for error cases, the error touches the data field); distinct by case hash"
-        ' Also: 2000 real DF17 frames (leg corpus), replacement parity fields copied from the data part, keyword and positional encode flag, four concurrent callers (leg threads), 140 000 / 1.3 million distinct frames in a row in one process (leg volume).')
+        ' Also: 2000 real DF17 frames (leg corpus), replacement parity fields copied from the data part, keyword and positional encode flag, four concurrent callers (leg threads), the admission test of the demodulator _check_msg as a history on one reader incl. RtlReader(debug=True) (leg admission), 140 000 / 1.3 million distinct frames in a row in one process (leg volume).')
 ASSUMPTIONS = ["hex strings of exactly 14 or 28 digits",
                "completeness of the weight<=5 detection claim over all frames rests on implementation linearity, which is sampled (leg linearity)"]
 
@@ -42,6 +45,10 @@ def chk_three_way(case, note):
     got = call(pms.crc, m, enc) if enc else call(pms.crc, m)
     if call(pms.crc, m, encode=enc) != got:
         return "crc(%s, encode=%s) as a keyword -> %r, positional -> %r" % (m, enc, call(pms.crc, m, encode=enc), got)
+    # the flag as an int, a numpy bool (element of a boolean mask) or a numpy integer means the same
+    for flag in ((1, np.True_, np.int64(1)) if enc else (0, np.False_)):
+        if call(pms.crc, m, flag) != got:
+            return "crc(%s, %r) -> %r, with the flag as %r -> %r" % (m, flag, call(pms.crc, m, flag), enc, got)
     leg = call(py_common.crc_legacy, m, enc)
     note.cls("len%d" % n, "enc" if enc else "dec", "lower" if m != m.upper() else "upper")
     note.nt(v != 0)
@@ -300,6 +307,58 @@ def chk_threads(case, note):
 
 
 
+# ---------------------------------------------------------------- the demodulator's admission test, as a history on one reader
+@st.composite
+def s_admit(draw):
+    """a reader sees valid DF17 frames and, later, copies of them with 1-5 flipped bits or a burst of at most 24 bits - anywhere, or inside
+    the parity field only, or inside the data only; interleaved with other aircraft's frames"""
+    nvalid = draw(gen.uint(1, 4))
+    valid = [crc24.downlink_frame((17 << 83) | draw(gen.ubits(83)), 88, 0) for _ in range(nvalid)]
+    seq = []
+    for _ in range(draw(gen.uint(2, 12))):
+        f = valid[draw(gen.uint(0, nvalid - 1))]
+        kind = draw(st.sampled_from(["valid", "valid", "flips", "flips-parity", "flips-data", "burst", "burst-parity"]))
+        e = 0
+        if kind.startswith("flips"):
+            lo, hi = {"flips": (0, 106), "flips-parity": (0, 23), "flips-data": (24, 106)}[kind]   # bits 107-111 (the DF field) stay: the frame remains DF17
+            for b in draw(st.lists(gen.uint(lo, hi), min_size=1, max_size=5, unique=True)):
+                e |= 1 << b
+        elif kind.startswith("burst"):
+            L = draw(gen.uint(2, 24))
+            start = draw(gen.uint(0, (24 if kind == "burst-parity" else 107) - L))
+            e = (1 | (draw(gen.ubits(L - 2)) << 1 if L > 2 else 0) | 1 << (L - 1)) << start
+        seq.append(["%028X" % (f ^ e), e != 0])
+    return {"seq": seq, "debug": draw(gen.uint(0, 3)) == 0, "hc": draw(st.sampled_from(["U", "U", "L"]))}
+
+
+def chk_admit(case, note):
+    import contextlib
+    import io
+    from pyModeS.extra import rtlreader
+    rd = variants.make_reader(rtlreader.RtlReader, case["debug"])
+    nbad = 0
+    seen = []
+    for msg, corrupted in case["seq"]:
+        if case["hc"] == "L":
+            msg = msg.lower()
+        with contextlib.redirect_stdout(io.StringIO()):
+            r = call(rd._check_msg, msg)
+        if r[0] != "ok":
+            return "RtlReader(debug=%s)._check_msg(%s) raised %r" % (case["debug"], msg, r[1:])
+        want = crc24.remainder(int(msg, 16), 112) == 0
+        if corrupted and want:
+            return "harness: corrupted frame %s has reference remainder 0" % msg   # cannot happen for these error patterns
+        if bool(r[1]) != want:
+            return "RtlReader(debug=%s)._check_msg(%s) -> %r after the reader was shown %r; reference remainder %06X (%s)" % (
+                case["debug"], msg, r[1], seen, crc24.remainder(int(msg, 16), 112), "a corrupted copy of a frame seen before" if corrupted else "a valid frame")
+        seen.append(msg)
+        nbad += corrupted
+    note.evals = len(case["seq"])
+    note.cls("admission", "debug-reader" if case["debug"] else "default-reader")
+    note.nt(nbad > 0 and nbad < len(case["seq"]))
+    return None
+
+
 # ---------------------------------------------------------------- volume: one process, very many distinct frames
 def vol_step(a, b, k):
     n = 112 if a & 1 else 56
@@ -318,6 +377,8 @@ def vol_step(a, b, k):
 
 LEGS = [
     volume.leg(vol_step, 140000, 1300000, "140 000 (thorough: 1.3 million per process) distinct random frames through crc() in one process, each against the reference division"),
+    Leg("admission", chk_admit, strategy=s_admit, quick=6000, thorough=200000,
+        doc="RtlReader._check_msg on one reader: valid DF17 frames and corrupted copies of them (1-5 flips / bursts <= 24, also confined to the parity field), debug on and off"),
     Leg("threads", chk_threads, enum=enum_threads, shards_quick=4, shards_thorough=8, doc="concurrent callers of crc() with a 1 us switch interval"),
     Leg("corpus", chk_corpus, enum=enum_corpus, exhaustive=True, doc="2000 real DF17 frames from the repository's sample data: remainder 0 under the reference and both implementations"),
     Leg("three_way", chk_three_way, strategy=s_frame, quick=24000, thorough=800000,
